@@ -56,7 +56,7 @@ def gen(tier, rng):
                     if tier == "quick" and n % 11:
                         continue
                     alpha = bool(rz.PT[pt]["alpha"]) and n % 2 == 0
-                    cases.append(rz.resize_case(pt, sw, sh, dw, dh, alg=alg, flt=flt, m=m, alpha=alpha, box=box, Q=Q, cpu=rz.CPUS[n % 3],
+                    cases.append(rz.resize_case(pt, sw, sh, dw, dh, alg=alg, flt=flt, m=m, alpha=alpha, box=box, Q=Q, cpu=rz.pick(n, 101, rz.CPUS),
                                                 src_c={"g": "data", "v": content(pt, kinds[n % 4], sw, sh, rng)},
                                                 log=("src", "dst", "hooks", "imgs"), chk=("pipeline", "ret_ok")))
     return cases
